@@ -228,6 +228,8 @@ impl Handler {
         // Subscribe before announcing: a client that appends as soon as it sees
         // `<name>.registered` must not be able to slip a frame in before the handler listens.
         let recver = store.read(options.clone()).await;
+        #[cfg(feature = "verif")]
+        crate::verif::sync("handler.subscribed", Some(&self.verif_frame()), 0);
 
         {
             let store = store.clone();
@@ -238,6 +240,8 @@ impl Handler {
             });
         }
 
+        #[cfg(feature = "verif")]
+        crate::verif::sync("handler.announce", Some(&self.verif_frame()), 0);
         let _ = store.append(
             Frame::builder(format!("{}.registered", &self.topic), self.context_id)
                 .meta(serde_json::json!({
@@ -249,6 +253,15 @@ impl Handler {
         );
 
         Ok(())
+    }
+
+    /// names this handler at a verification sync point: its `.register` frame's id, topic, context
+    #[cfg(feature = "verif")]
+    fn verif_frame(&self) -> Frame {
+        let mut frame =
+            Frame::builder(format!("{}.register", &self.topic), self.context_id).build();
+        frame.id = self.id;
+        frame
     }
 
     pub async fn from_frame(
